@@ -1169,11 +1169,57 @@ def run_ds(ctx, idx):
               message="; ".join(problems))
 
 
+def run_rewrite(ctx, idx):
+    """History case: a user LUT file is used, then regenerated at the SAME path with different
+    content (emodulus column, reference viscosity), then used again.  The monitor on
+    get_emodulus resolves its reference model from the file's current bytes, so a value that
+    still comes from the first table ("does not depend on earlier calls") is flagged."""
+    from dclab.features import emodulus
+    from vmon import boot
+    from vmon.model import c05_lut as M
+    rng = ctx.rng(idx, salt=9)
+    ident = f"vmon-rw-{ctx.seed}-{idx}"
+    data, meta, featx, style = gen_user_lut(rng, ident)
+    path = boot.scratch() / f"lutrw_{ctx.seed}_{idx}.txt"
+    path.write_text(M.format_lut_text(data, meta, featx))
+    route = str(rng.choice(["path_str", "path_obj", "identifier"]))
+    if route == "identifier":
+        emodulus.register_lut(path, identifier=ident)
+        _State.registry[ident] = str(path)
+        arg = ident
+    else:
+        arg = str(path) if route == "path_str" else path
+    lut, _ = _model_for(arg)
+    lw = float(rng.choice([15.0, 20.0, 30.0]))
+    fq = float(rng.choice([0.04, 0.08, 0.16]))
+    px = float(rng.choice([0.0, 0.34]))
+    n = int(rng.integers(3, 40))
+    pn, kinds, node = gen_points(rng, lut, n)
+    x, d = M.inverse_mapping(lut, pn[:, 0], pn[:, 1], lw, px)
+    kw = {featx: np.array(x, dtype=float), "deform": np.array(d, dtype=float), "lut_data": arg,
+          "medium": float(rng.choice([1.0, 6.0, 15.0])), "channel_width": lw, "flow_rate": fq,
+          "px_um": px, "temperature": None, "visc_model": None}
+    _call(ctx, kw)
+    for rep in range(int(rng.integers(1, 3))):
+        data2 = data.copy()
+        data2[:, 2] = np.array([float(f"{v:.5e}") for v in data[:, 2] * rng.uniform(0.4, 2.5)])
+        meta2 = dict(meta)
+        meta2["fluid_viscosity"] = float(rng.choice([v for v in (1.0, 6.0, 15.0)
+                                                     if v != meta["fluid_viscosity"]]))
+        path.write_text(M.format_lut_text(data2, meta2, featx))
+        ctx.count("lut_file_regenerated_between_calls")
+        _call(ctx, {k: (np.array(v, copy=True) if isinstance(v, np.ndarray) else v)
+                    for k, v in kw.items()})
+    ctx.mark_nontrivial(["rewrite", idx, route, featx, n])
+
+
 def run(spec, ctx):
     _State.ctx = ctx
     install()
     for idx in ctx.case_ids():
-        if idx % DS_EVERY == DS_EVERY - 1:
+        if idx % 11 == 4:
+            run_rewrite(ctx, idx)
+        elif idx % DS_EVERY == DS_EVERY - 1:
             run_ds(ctx, idx)
         else:
             run_direct(ctx, idx)
